@@ -557,7 +557,17 @@ fn exec_osfs(plan: &Plan, st: &mut Stats) -> Result<(), Violation> {
                 st.inc("osfs.dev-full-absent");
                 return Ok(());
             }
-            match map.encode_to_path("/dev/full") {
+            // never hand the device node itself to code under test (a faulty encode_to_path that "cleans up" would unlink
+            // it when the check runs as root): go through a symlink in the scratch directory
+            let link = dir.join(format!("full-{:?}", std::thread::current().id()));
+            let _ = std::fs::remove_file(&link);
+            if std::os::unix::fs::symlink("/dev/full", &link).is_err() {
+                st.inc("osfs.dev-full-absent");
+                return Ok(());
+            }
+            let r = map.encode_to_path(&link);
+            let _ = std::fs::remove_file(&link);
+            match r {
                 Err(_) => {
                     st.inc("osfs.dev-full-returned-err");
                     Ok(())
